@@ -2160,6 +2160,7 @@ func (d *Data) updateMaxLabel(v dvid.VersionID, label uint64) (changed bool, err
 	if !changed {
 		return
 	}
+	dvid.VerifPoint("yield:labelmap.updateMaxLabel:after-read")
 
 	d.mlMu.Lock()
 	defer d.mlMu.Unlock()
@@ -2194,6 +2195,7 @@ func (d *Data) updateBlockMaxLabel(v dvid.VersionID, block *labels.Block) {
 			changed = true
 		}
 	}
+	dvid.VerifPoint("yield:labelmap.updateBlockMaxLabel:after-read")
 	if changed {
 		d.mlMu.Lock()
 		d.MaxLabel[v] = curMax
